@@ -10,10 +10,13 @@ import (
 	"strings"
 	"testing"
 
+	"github.com/hashicorp/raft"
+	wal "github.com/hashicorp/raft-wal"
 	"github.com/hashicorp/raft-wal/fs"
 	"pgregory.net/rapid"
 
 	"verifharness/common"
+	"verifharness/kit"
 	"verifharness/wl"
 )
 
@@ -486,4 +489,211 @@ func TestC07Filer(t *testing.T) {
 		}
 		return
 	})
+}
+
+// ---- process kills at syscall boundaries on the production stack (C03, and C01's verdict on
+// the same images): strace delivers SIGKILL when the process enters the K-th call of one
+// syscall (fsync, fdatasync, pwrite64, renameat, openat, fallocate, unlinkat, ftruncate) - the
+// machine stays up, the page cache survives. Whatever the boundary - inside the very first
+// Open while bolt initialises wal-meta.db, inside a rotation, a truncation, an append - the
+// directory must open again, hold exactly the acknowledged log (or that plus the call in
+// flight), accept an append and show it after one more Close and Open.
+
+type KillCase struct {
+	W       wl.Workload `json:"w"`
+	Syscall string      `json:"syscall"`
+	Sel     int         `json:"sel"`
+}
+
+var killSyscalls = []string{"fsync", "fdatasync", "fdatasync", "pwrite64", "pwrite64", "renameat", "openat", "fallocate", "unlinkat", "ftruncate", "write"}
+
+func genKillCase(t *rapid.T) KillCase {
+	w := wl.Workload{SegSize: rapid.SampledFrom([]int{128, 256, 4096}).Draw(t, "seg")}
+	n := rapid.IntRange(0, 9).Draw(t, "nops")
+	for i := 0; i < n; i++ {
+		switch k := rapid.IntRange(0, 99).Draw(t, "k"); {
+		case k < 55:
+			op := wl.Op{K: "append", Start: rapid.SampledFrom([]uint64{1, 1, 5, 1 << 33}).Draw(t, "start")}
+			for j := 0; j < rapid.IntRange(1, 3).Draw(t, "n"); j++ {
+				op.Sizes = append(op.Sizes, rapid.SampledFrom([]int{0, 10, 60, 100, 300}).Draw(t, "sz"))
+			}
+			w.Ops = append(w.Ops, op)
+		case k < 65:
+			w.Ops = append(w.Ops, wl.Op{K: "delhead", A: rapid.IntRange(0, 4).Draw(t, "a")})
+		case k < 73:
+			w.Ops = append(w.Ops, wl.Op{K: "deltail", A: rapid.IntRange(0, 3).Draw(t, "a")})
+		case k < 77:
+			w.Ops = append(w.Ops, wl.Op{K: "delall"})
+		case k < 85:
+			w.Ops = append(w.Ops, wl.Op{K: "set", Key: "k", Val: rapid.SliceOfN(rapid.Byte(), 0, 10).Draw(t, "val")})
+		default:
+			w.Ops = append(w.Ops, wl.Op{K: "reopen"})
+		}
+	}
+	return KillCase{W: w, Syscall: rapid.SampledFrom(killSyscalls).Draw(t, "syscall"), Sel: rapid.IntRange(0, 10000).Draw(t, "sel")}
+}
+
+func runKillCase(c KillCase) (res common.Result) {
+	work, err := os.MkdirTemp("", "verif-kill-")
+	if err != nil {
+		res.Fail = common.Failf("harness", "%v", err)
+		return
+	}
+	defer os.RemoveAll(work)
+	var calls []Sys
+	for attempt := 0; attempt < 3; attempt++ {
+		var stderr string
+		calls, _, stderr, err = straceRun(work, c.W, "")
+		if err == nil && len(calls) > 10 {
+			break
+		}
+		if attempt == 2 {
+			common.Inconclusive("dry traced run failed: %v %s", err, stderr)
+		}
+	}
+	// per-thread occurrence counts of the chosen syscall (strace counts injections per thread)
+	perTid := map[string]int{}
+	max := 0
+	for _, sc := range calls {
+		if sc.Name == c.Syscall {
+			perTid[sc.Tid]++
+			if perTid[sc.Tid] > max {
+				max = perTid[sc.Tid]
+			}
+		}
+	}
+	if max == 0 {
+		res.Classes = []string{"syscall-not-issued"}
+		return
+	}
+	k := 1 + c.Sel%max
+	calls, dir, _, _ := straceRun(work, c.W, fmt.Sprintf("inject=%s:signal=KILL:when=%d", c.Syscall, k))
+	// which steps were acknowledged before the kill, and is one in flight?
+	acked, inflight, firstOpenDone := 0, false, false
+	for _, sc := range calls {
+		if sc.Name != "access" && sc.Name != "faccessat" && sc.Name != "faccessat2" {
+			continue
+		}
+		q := reQuoted.FindStringSubmatch(sc.Args)
+		if q == nil || !strings.HasPrefix(q[1], "/verif-mark/") {
+			continue
+		}
+		parts := strings.Split(strings.TrimPrefix(q[1], "/verif-mark/"), "/")
+		if len(parts) != 3 {
+			continue
+		}
+		var step int
+		fmt.Sscanf(parts[0], "%d", &step)
+		op, ph := parts[1], parts[2]
+		if step == 0 && op == "Open" && ph == "ok" {
+			firstOpenDone = true
+		}
+		if step >= 1 && step <= len(c.W.Ops) {
+			mut := op == "StoreLogs" || op == "DeleteRange"
+			if mut && ph == "begin" {
+				inflight = true
+			}
+			if mut && ph == "ok" {
+				inflight = false
+			}
+			// a step is complete when its last marked call finished: Barrier for appends, the call itself otherwise
+			kind := c.W.Ops[step-1].K
+			done := false
+			switch kind {
+			case "append":
+				done = op == "StoreLogs" && ph == "ok"
+			case "delhead", "deltail", "delall":
+				done = op == "DeleteRange" && ph == "ok"
+			case "set":
+				done = op == "Set" && ph == "ok"
+			case "reopen":
+				done = op == "Open" && ph == "ok"
+			default:
+				done = ph == "ok"
+			}
+			if done && step > acked {
+				acked = step
+			}
+		}
+	}
+	// truncations of an empty model issue no call at all: count them as passed when a later step was reached
+	m, withNext := wl.ModelAfter(c.W, acked)
+	for acked < len(c.W.Ops) && withNext == nil {
+		// steps without effect on the log (set, reopen, get, a truncation of an empty log) need no either-or
+		k := c.W.Ops[acked].K
+		if k == "append" || ((k == "delhead" || k == "deltail" || k == "delall") && !m.Empty()) {
+			break
+		}
+		acked++
+		m, withNext = wl.ModelAfter(c.W, acked)
+	}
+	_ = inflight
+	res.Classes = append(res.Classes, "killed-at:"+c.Syscall)
+	if !firstOpenDone {
+		res.Classes = append(res.Classes, "killed-inside-first-open")
+	}
+	cfg := kit.Cfg{SegSize: c.W.SegSize, Dir: dir}
+	type openRes struct {
+		w   *wal.WAL
+		err error
+	}
+	ch := make(chan openRes, 1)
+	go func() {
+		defer func() {
+			if p := recover(); p != nil {
+				ch <- openRes{nil, fmt.Errorf("panic: %v", p)}
+			}
+		}()
+		w, err := cfg.Open()
+		ch <- openRes{w, err}
+	}()
+	or := <-ch
+	if or.err != nil {
+		res.Fail = common.Failf("kill/open-failed", "process killed on entering %s #%d (per thread) after %d acknowledged steps of %d: Open of the directory it left = %v", c.Syscall, k, acked, len(c.W.Ops), or.err)
+		return
+	}
+	w := or.w
+	defer func() { w.Close() }()
+	cur := m
+	if sig, msg := kit.CheckAgainst(w, m, nil); sig != "" {
+		if withNext == nil {
+			res.Fail = common.Failf("kill/state/"+sig, "process killed on entering %s #%d after %d acknowledged steps: %s", c.Syscall, k, acked, msg)
+			return
+		}
+		if sig2, msg2 := kit.CheckAgainst(w, withNext, nil); sig2 != "" {
+			res.Fail = common.Failf("kill/state/"+sig, "process killed on entering %s #%d after %d acknowledged steps, step %d possibly in flight: the log matches neither the state before it (%s) nor after it (%s)", c.Syscall, k, acked, acked+1, msg, msg2)
+			return
+		}
+		cur = withNext
+	}
+	// usable, and what it then acknowledges is kept
+	next := cur.Last + 1
+	if cur.Empty() {
+		next = 7
+	}
+	l := kit.EntrySpec{DataLen: 33, Seed: 99}.Make(next, 9)
+	if err := w.StoreLogs([]*raft.Log{l}); err != nil {
+		res.Fail = common.Failf("kill/append-refused", "after a process kill on entering %s #%d and a successful Open, StoreLogs(%d) = %v", c.Syscall, k, next, err)
+		return
+	}
+	cur = cur.Clone()
+	cur.Append([]*raft.Log{l})
+	if err := w.Close(); err != nil {
+		res.Fail = common.Failf("kill/close-err", "%v", err)
+		return
+	}
+	if w, err = cfg.Open(); err != nil {
+		res.Fail = common.Failf("kill/second-open-failed", "after a process kill on entering %s #%d, recovery and one more append: Open = %v", c.Syscall, k, err)
+		return
+	}
+	if sig, msg := kit.CheckAgainst(w, cur, nil); sig != "" {
+		res.Fail = common.Failf("kill/second-state/"+sig, "after a process kill on entering %s #%d, recovery, one append, Close and Open: %s", c.Syscall, k, msg)
+		return
+	}
+	res.NonTrivial = true
+	return
+}
+
+func TestC03KillPoints(t *testing.T) {
+	common.Run(t, "C03", "C03KillPoints", genKillCase, runKillCase)
 }
